@@ -9,6 +9,9 @@ use rand::rngs::SmallRng;
 use rand::SeedableRng as _;
 use std::collections::HashMap;
 use std::net::SocketAddr;
+#[cfg(hotstuff_verif)]
+use crate::simnet::TcpStream;
+#[cfg(not(hotstuff_verif))]
 use tokio::net::TcpStream;
 use tokio::sync::mpsc::{channel, Receiver, Sender};
 use tokio_util::codec::{Framed, LengthDelimitedCodec};
@@ -36,6 +39,9 @@ impl SimpleSender {
     pub fn new() -> Self {
         Self {
             connections: HashMap::new(),
+            #[cfg(hotstuff_verif)]
+            rng: SmallRng::seed_from_u64(crate::simnet::next_seed()),
+            #[cfg(not(hotstuff_verif))]
             rng: SmallRng::from_entropy(),
         }
     }
